@@ -702,7 +702,9 @@ class ReaderHistories(object):
                 'errors are the package\'s and do not grow from request to request')
 
     SCRIPTS = ['index-appears', 'index-rewritten', 'index-removed', 'file-appears', 'oversize-first-variant', 'oversize-only',
-               'strict-zip-asked-twice', 'module-below-a-linked-directory', 'module-two-levels-below-a-linked-directory',
+               'strict-zip-asked-twice', 'directory-appears-one-level-down', 'directory-appears-two-levels-down',
+               'directory-appears-three-levels-down', 'file-appears-two-levels-down', 'directory-disappears',
+               'module-below-a-linked-directory', 'module-two-levels-below-a-linked-directory',
                'module-below-a-link-to-a-link', 'module-is-a-linked-file']
 
     def blocks(self, tier):
@@ -782,6 +784,28 @@ class ReaderHistories(object):
                 if got[0] == 'error' and got[1] == 'PySmiReaderFileNotModifiedError':
                     vs.append(('%s|not-modified-error-without-any-time-compared' % sig, repr(got)))
                 return repr(got[:2]), vs, 1
+            if sc.startswith('directory-') or sc == 'file-appears-two-levels-down':
+                # the tree changes below the top directory between two requests to one reader
+                os.makedirs(os.path.join(root, 'vendor', 'release-1'))
+                w(os.path.join('vendor', 'release-1', 'OTHER-MIB.txt'), 'other')
+                both(r, 'before')
+                both_other = ask(r, 'OTHER-MIB')
+                if sc == 'directory-disappears':
+                    os.makedirs(os.path.join(root, 'vendor', 'release-2'))
+                    w(os.path.join('vendor', 'release-2', 'FOO-MIB.txt'), 'deep file')
+                    both(r, 'while-there')
+                    shutil.rmtree(os.path.join(root, 'vendor', 'release-2'))
+                elif sc == 'file-appears-two-levels-down':
+                    w(os.path.join('vendor', 'release-1', 'FOO-MIB.txt'), 'deep file')
+                else:
+                    sub = {'directory-appears-one-level-down': ['newdir'], 'directory-appears-two-levels-down': ['vendor', 'release-2'],
+                           'directory-appears-three-levels-down': ['vendor', 'release-1', 'patches']}[sc]
+                    os.makedirs(os.path.join(root, *sub))
+                    w(os.path.join(*(sub + ['FOO-MIB.txt'])), 'deep file')
+                got = both(r, 'after')
+                if sc != 'directory-disappears' and got[:2] != ('found', 'deep file'):
+                    vs.append(('%s|existing-file-not-served|%s' % (sig, got[0]), repr(got[:2])))
+                return 'ok' if not vs else 'bad', vs, 3
             w('first.dat', 'via first')
             w('second.dat', 'via second')
             if sc == 'index-appears':
